@@ -78,13 +78,15 @@ Proof. unfold MT, touch_tx. cbn [s_moves s_txs]. intros HM. rewrite map_tx_sigs;
 
 Lemma run_input_mt f now s i : f_moves f = true -> MT s -> MT (outcome_state (run_input f now s i) s).
 Proof.
-  intros Fm HM. destruct i as [ps ts ref md amd force | id force at_eff rmeta | [a|id] md | [a|id] k]; simpl.
-  - destruct ps as [|p ps']; [exact HM|].
+  intros Fm HM. script_split i.
+  { simpl. unfold create_tx. destruct ps as [|p ps']; [exact HM|].
     destruct (feasible force (s_vols s) (p :: ps')); simpl; [|exact HM].
     destruct (commit_transaction f now s (p :: ps') md ts ref) as [s1 [t|]] eqn:E; simpl.
     + pose proof (upsert_tx_accounts_frame f now s1 t amd) as (_ & Htx & Hm & _).
       unfold MT. rewrite Htx, Hm. eapply commit_mt; eassumption.
-    + eapply commit_mt; eassumption.
+    + eapply commit_mt; eassumption. }
+  destruct i as [ps ts ref md amd force | id force at_eff rmeta | [a|id] md | [a|id] k | ps ts ref md amd force smd samd];
+    [apply Hc | | | | | | script_bullet Hc]; simpl.
   - destruct (find_tx (s_txs s) id) as [t|]; [|exact HM].
     destruct (t_rev t); [exact HM|].
     set (mark := fun x : tx => tx_with x (t_meta x) now (Some now)).
